@@ -122,3 +122,105 @@ pub fn start_day(rng: &mut Rng) -> i64 {
   }
   .clamp(FIRST, LAST)
 }
+
+/// an instant (absolute second = day number * 86400 + second of day) related to instant a
+pub fn related_instant(rng: &mut Rng, a: i64) -> i64 {
+  let n = a.div_euclid(86400);
+  let s = a.rem_euclid(86400);
+  let cand = match rng.below(12) {
+    0 | 1 => a,
+    2 => a + if rng.chance(1, 2) { 1 } else { -1 },
+    3 => a + rng.range(-7200, 7200),
+    4 => a + 7200 * rng.range(-12, 12),
+    5 => n * 86400 + *rng.pick(&[0i64, 1, 3599, 3600, 43200, 82799, 82800, 86399]),
+    6 => a + 86400 * if rng.chance(1, 2) { 1 } else { -1 },
+    7 => rng.range(FIRST * 86400, LAST * 86400 + 86399),
+    // the same clock time on a related day
+    _ => related_day(rng, n) * 86400 + s,
+  };
+  cand.clamp(FIRST * 86400, LAST * 86400 + 86399)
+}
+
+/// Runs one single-thread sequence of 6..16 judged operations on related days.  `judge(day, rng)` performs one
+/// operation on the library and returns (label of what it did, descriptions of wrong answers, answers judged).
+/// The first wrong answer ends the sequence and is reported with the whole trace.
+pub fn day_walk<F>(prefix: &str, what: &str, i: usize, seed: u64, lo: i64, hi: i64, log: &mut crate::log::Log, mut judge: F)
+where
+  F: FnMut(i64, &mut Rng) -> (String, Vec<String>, u64),
+{
+  let mut rng = Rng::new(crate::util::mix(seed, i as u64 ^ 0xD1A7));
+  let len = rng.range(6, 16);
+  let mut n = start_day(&mut rng).clamp(lo, hi);
+  let key = format!("seq{}_{}", i, crate::model::cal::fmt_dn(n));
+  let mut trace: Vec<String> = vec![];
+  let r: Result<(Option<String>, u64), String> = (|| {
+    let mut judged = 0u64;
+    for step in 0..len {
+      let (label, bad, k) = match crate::util::guard(std::panic::AssertUnwindSafe(|| judge(n, &mut rng))) {
+        Ok(v) => v,
+        Err(msg) => return Err(format!("{} in the operation on {}", msg, crate::model::cal::fmt_dn(n))),
+      };
+      trace.push(label);
+      judged += k;
+      if !bad.is_empty() {
+        return Ok((Some(format!("step {} [{}]: {}", step, trace.join(" "), bad.join("; "))), judged));
+      }
+      n = related_day(&mut rng, n).clamp(lo, hi);
+    }
+    Ok((None, judged))
+  })();
+  log.ev(1);
+  log.nt(1);
+  match r {
+    Ok((bad, judged)) => {
+      log.count("history.sequences", 1);
+      log.count("history.answers_judged", judged);
+      if let Some(o) = bad {
+        log.violate(format!("{}/history/{}", prefix, key), what, key.clone(), o, "the answers the oracle gives for each day of the sequence".into());
+      }
+    }
+    Err(msg) => log.violate(format!("{}/panic-history/{}", prefix, key), what, format!("{} [{}]", key, trace.join(" ")), format!("panic: {}", msg), "no panic".into()),
+  }
+}
+
+/// the same for instants (absolute seconds)
+pub fn instant_walk<F>(prefix: &str, what: &str, i: usize, seed: u64, lo: i64, hi: i64, log: &mut crate::log::Log, mut judge: F)
+where
+  F: FnMut(i64, &mut Rng) -> (String, Vec<String>, u64),
+{
+  let mut rng = Rng::new(crate::util::mix(seed, i as u64 ^ 0x1A57));
+  let len = rng.range(6, 16);
+  let mut a = (start_day(&mut rng) * 86400 + rng.range(0, 86399)).clamp(lo, hi);
+  let key = format!("seq{}_{}", i, crate::api::fmt_abs(a));
+  let mut trace: Vec<String> = vec![];
+  let r: Result<(Option<String>, u64), String> = (|| {
+    let mut judged = 0u64;
+    for step in 0..len {
+      let (label, bad, k) = match crate::util::guard(std::panic::AssertUnwindSafe(|| judge(a, &mut rng))) {
+        Ok(v) => v,
+        Err(msg) => return Err(format!("{} in the operation on {}", msg, crate::api::fmt_abs(a))),
+      };
+      trace.push(label);
+      judged += k;
+      if !bad.is_empty() {
+        return Ok((Some(format!("step {} [{}]: {}", step, trace.join(" "), bad.join("; "))), judged));
+      }
+      a = related_instant(&mut rng, a).clamp(lo, hi);
+    }
+    Ok((None, judged))
+  })();
+  log.ev(1);
+  log.nt(1);
+  match r {
+    Ok((bad, judged)) => {
+      log.count("history.sequences", 1);
+      log.count("history.answers_judged", judged);
+      if let Some(o) = bad {
+        log.violate(format!("{}/history/{}", prefix, key), what, key.clone(), o, "the answers the oracle gives for each instant of the sequence".into());
+      }
+    }
+    Err(msg) => log.violate(format!("{}/panic-history/{}", prefix, key), what, format!("{} [{}]", key, trace.join(" ")), format!("panic: {}", msg), "no panic".into()),
+  }
+}
+
+pub const WALK_TEXT: &str = "each input derived from the previous one (same input, +-1, a few days / a month / half a year / a year away, the same month-day in a year differing by a cycle, a power of two or ten or a digit, month and day exchanged, across the nearest year boundary), every answer judged by the same oracle as the sweeps";
